@@ -61,9 +61,43 @@ pub fn one(out: &mut Out, line: &str) {
     one_with(out, line, oracle)
 }
 
+/// `Message::from_bytes((bytes, 0))` — the entry point of jet1090's de-duplicator and of decode1090:
+/// never panics; accepts exactly when the first 7/14 bytes decode (trailing bytes ignored)
+pub fn decb(out: &mut Out, bytes: &[u8]) {
+    use deku::DekuContainerRead;
+    let op = format!("decb {}", hex(bytes));
+    let r = guarded(|| Message::from_bytes((bytes, 0)).map(|(_, m)| m));
+    let ans = match r {
+        None => {
+            out.fail("from-bytes-panic", &op, "Message::from_bytes panicked");
+            "panic".to_string()
+        }
+        Some(Err(_)) => "err".to_string(),
+        Some(Ok(m)) => match guarded(|| serde_json::to_string(&m)) {
+            None => "panic".to_string(),
+            Some(Err(e)) => dec_answer(&Dec::SerErr(e.to_string())),
+            Some(Ok(j)) => {
+                // the frame proper must be accepted by try_from with the same result
+                let n = if bytes[0] & 0x80 != 0 { 14 } else { 7 };
+                let (d, _) = decode_json(&bytes[..n.min(bytes.len())]);
+                let a = dec_answer(&Dec::Json(j));
+                if dec_answer(&d) != a {
+                    out.fail("from-bytes-differs", &op, "from_bytes and try_from on the frame proper disagree");
+                }
+                a
+            }
+        },
+    };
+    out.case(&op, &ans);
+}
+
 pub fn one_with(out: &mut Out, line: &str, oracle: Oracle) {
     let p: Vec<&str> = line.split_whitespace().collect();
     match p.as_slice() {
+        ["decb", h] => match unhex(h) {
+            Some(b) => decb(out, &b),
+            None => out.notes.push(format!("bad hex: {line}")),
+        },
         ["dec", h] => match unhex(h) {
             Some(b) => dec_with(out, &b, oracle),
             None => out.notes.push(format!("bad hex: {line}")),
@@ -95,6 +129,21 @@ pub fn run_with(out: &mut Out, rng: &mut Rng, thorough: bool, oracle: Oracle) {
                 dec(out, &f);
             }
         }
+    }
+    // from_bytes: every DF with 0..=3 trailing bytes, and short inputs
+    for df in 0..32u8 {
+        for extra in 0..=3usize {
+            for _ in 0..(2 * k) {
+                let mut f = frame(rng, df, None);
+                if df == 18 {
+                    set_parity(&mut f, 0);
+                }
+                f.extend(rng.bytes(extra));
+                decb(out, &f);
+            }
+        }
+        let f = frame(rng, df, None);
+        decb(out, &f[..f.len() - 1 - rng.below(3) as usize]);
     }
     // well-formed frames: every DF; for long formats every type code
     for df in 0..32u8 {
